@@ -1317,8 +1317,20 @@ func (iqr *IQR) RenameColumn(oldName, newName string) error {
 	values, ok := iqr.knownValues[oldName]
 	if ok {
 		// if old name is present it means that it must be a created column
-		// so we will rename it and update the knownValues map
-		iqr.renamedColumns[oldName] = newName
+		// (or a column that was read, and so materialized, after an earlier
+		// rename) so we will rename it and update the knownValues map
+		chained := false
+		for old, new := range iqr.renamedColumns {
+			if new == oldName {
+				// colA was renamed to colB earlier and colB is renamed to colC
+				// now: colA must end up as colC, not come back as colB.
+				iqr.renamedColumns[old] = newName
+				chained = true
+			}
+		}
+		if !chained {
+			iqr.renamedColumns[oldName] = newName
+		}
 		iqr.knownValues[newName] = values
 	} else {
 		// if oldname is not present in the knownValues map we need to check if this column
